@@ -139,6 +139,8 @@ pub fn gen(seed: u64, _idx: u64, tier: Tier) -> Scenario {
                     match r.below(3) { 0 => d.saturating_sub(delta).max(t), 1 => d, _ => d + delta }
                 } else { t + *r.pick(&[1_000_000u64, 30_000_000, 500_000_000, 1_000_000_000, 2_100_000_000]) };
                 if target > t { sc.steps.push(Step::Adv { ns: target - t }); t = target; }
+                // the wall clock may jump (NTP step, manual change): deadlines are monotonic-clock instants and must not move
+                if r.chance(1, 12) { sc.steps.push(Step::RealStep { ns: *r.pick(&[-3_600_000_000_000i64, -1_500_000_000, 1_500_000_000, 3_600_000_000_000, 86_400_000_000_000]) }); }
             }
             9 => { if policy == 2 { sc.steps.push(Step::Ctl { name: "sweep_hold".into(), n: 0, a: vec![] }); } }
             10 => { if policy == 2 { sc.steps.push(Step::Ctl { name: "sweep_release".into(), n: 0, a: vec![] }); } }
@@ -169,7 +171,7 @@ pub fn exec(sc: &Scenario) -> Outcome {
 pub static DEF: CheckDef = CheckDef {
     id: "C02", level: "exploration", gen, exec,
     nontrivial: |o| o.counters.get("cmds").copied().unwrap_or(0) >= 20 && o.sim_ns > 0,
-    rule: "one run = one seeded history over 5 keys of all value types mixing TTL setters (SET EX/PX, SETEX, PSETEX, EXPIRE, PEXPIRE incl. zero/negative), TTL clearers (PERSIST, SET, GETSET, MSET), RENAME/RENAMENX, in-place modifiers, emptying+re-creating, conditional writers and readers of every family, with the virtual clock moved to deadline-d, deadline, deadline+d (d = 1ns..1s) and the sweeper thread scheduled by the simulator under one of three policies (runs whenever due / starved: lazy path only / parked between its collect and delete phases while client commands run); every reply is compared with the model at the exact virtual execution time, and the stored dataset incl. stored deadlines is compared after every command, clock move and sweeper release; non-trivial = at least 20 commands and the clock moved; distinct = distinct event-log hash",
+    rule: "one run = one seeded history over 5 keys of all value types mixing TTL setters (SET EX/PX, SETEX, PSETEX, EXPIRE, PEXPIRE incl. zero/negative), TTL clearers (PERSIST, SET, GETSET, MSET), RENAME/RENAMENX, in-place modifiers, emptying+re-creating, conditional writers and readers of every family, with the virtual clock moved to deadline-d, deadline, deadline+d (d = 1ns..1s) and the sweeper thread scheduled by the simulator under one of three policies (runs whenever due / starved: lazy path only / parked between its collect and delete phases while client commands run); every reply is compared with the model at the exact virtual execution time, and the stored dataset incl. stored deadlines is compared after every command, clock move and sweeper release; non-trivial = at least 20 commands and the clock moved; distinct = distinct event-log hash; the realtime clock is additionally stepped by -1 h .. +1 day at random points (deadlines are monotonic-clock instants and must not move)",
     quick_budget_s: 45.0, thorough_budget_s: 900.0, quick_max_runs: 1_000_000, thorough_max_runs: 100_000_000, exhaustive: false, exhaustive_after: |_| 0,
     real: REAL_WHOLE_SERVER, stub: STUB_WHOLE_SERVER, assumptions: ASSUME_COMMON,
 };
